@@ -1035,10 +1035,12 @@ def r32_axioms(run):
 def cast32(it, x):
     """float32(x) of a scalar (XReal / int / bool term or python number)"""
     run = it.run
-    r32_axioms(run)
+    run.assumed.add(R32_ASSUMPTION)
     x = xl(x)
     t = xreal.r(x)
     out = z3.If(xreal.is_fin(x), xreal.fin(r32(t)), x)
+    if not _ground(t) or it.pure:
+        r32_axioms(run)       # an application under a bound variable (array over a symbolic index): the quantified contract is needed
     if _ground(t) and not it.pure:
         t = z3.simplify(t)
         apps = run.__dict__.setdefault('r32_apps', [])
@@ -1113,3 +1115,25 @@ def _cast_getattr(it, v, a):
 
 
 NP._chain('value_getattr_hook', _cast_getattr)
+
+
+# ------------------------------------------------------------------------------------------ deterministic budgets, retried before reported
+# engine.discharge budgets a query by z3's deterministic `rlimit` (wall clock is only a safety net).  An `unknown` whose reason is a budget
+# ("canceled", "timeout", "max. resource limit exceeded", "push canceled") is retried here with a fresh solver and a 4x / 16x larger rlimit
+# before it is reported, so that a verdict never depends on how busy the machine is.
+_orig_discharge = E.discharge
+BUDGET_WORDS = ('cancel', 'timeout', 'resource', 'interrupted')
+
+
+def discharge_retry(run, formula, npc=None, nax=None, timeout_ms=10000, extra=(), rlimit=None):
+    base = rlimit if rlimit is not None else int(timeout_ms) * 2500
+    v, m, dt = _orig_discharge(run, formula, npc, nax, timeout_ms=timeout_ms, extra=extra, rlimit=base)
+    k = 0
+    while v == 'unknown' and k < 2 and any(w in str(m).lower() for w in BUDGET_WORDS):
+        k += 1
+        v, m, dt2 = _orig_discharge(run, formula, npc, nax, timeout_ms=timeout_ms * 4 ** k, extra=extra, rlimit=base * 4 ** k)
+        dt += dt2
+    return v, m, dt
+
+
+E.discharge = discharge_retry
